@@ -61,7 +61,7 @@ def step (s : St) : List String → St × List String
       match n.toInt?, pk.mapM parse with
       | some N, some l =>
           let seq0 := match l with | (p, _) :: _ => p.seq | [] => 0
-          (s, ["coherent=" ++ (if decide (Vorbis.Props.C04.Coherent s.z N true false 0 seq0 l) then "1" else "0")])
+          (s, ["coherent=" ++ (if decide (Vorbis.Block.Coherent s.z N true false 0 seq0 l) then "1" else "0")])
       | _, _ => (s, ["bad-op coh"])
   | t :: _ => (s, ["bad-op " ++ t])
   | [] => (s, [])
